@@ -48,7 +48,7 @@ def rnd_radius(rnd, lo, hi=800.0, p_plane=0.15):
 def random_lens(rnd, nsurf=None, kinds=("standard",), mirrors=False, tilts=False, catalogue=False,
                 finite_object=None, aperture="EPD", field_type=None, apertures=False, coatings=False,
                 absorbing=False, max_field=None, wavelengths=None, conics=True, stop=None,
-                poly_pow2=True, curved_image=False, optic=None, edits=None):
+                poly_pow2=True, curved_image=False, optic=None, edits=None, object_radius=None):
     """Returns (optic, meta).  Everything goes through the public API."""
     from optiland.optic import Optic
     from optiland.materials import IdealMaterial
@@ -72,7 +72,10 @@ def random_lens(rnd, nsurf=None, kinds=("standard",), mirrors=False, tilts=False
             o.add_wavelength(w, is_primary=(i == 1 or len(wavelengths or [1, 2, 3]) == 1))
     if ap_first and ap_value is not None:
         o.set_aperture(aperture, ap_value)
-    o.add_surface(index=0, thickness=obj_t)
+    if object_radius is not None and finite_object:
+        o.add_surface(index=0, radius=object_radius, thickness=obj_t)      # a curved object surface
+    else:
+        o.add_surface(index=0, thickness=obj_t)
     stop_at = stop if stop is not None else rnd.randint(1, n)
     in_glass = False
     meta = {"nsurf": n, "finite_object": finite_object, "stop": stop_at, "kinds": [], "mirror": False,
